@@ -719,6 +719,27 @@ func (br *bodyRun) modifiedKeys(li *loopInfo) ([]keySort, bool) {
 				for _, k := range ks {
 					set[k.key] = k.sort
 				}
+				// a pointer to a by-value struct field passed to the callee: what the callee
+				// writes there is named by the enclosing struct on this side (see havocInteriorArgs)
+				for _, av := range x.Common().Args {
+					root, path, space, ok := staticAddr(av)
+					if !ok || len(path) == 0 || space != "fld" {
+						continue
+					}
+					func() {
+						defer func() { recover() }()
+						names, t := pathNames(root, path)
+						if _, isStruct := t.Underlying().(*types.Struct); !isStruct {
+							return
+						}
+						for _, l := range leavesOf(t) {
+							k := "fld|" + typeName(root) + names + l.Suffix
+							if !fc.isStableKey(k) {
+								set[k] = arrSort(false, l.Sort)
+							}
+						}
+					}()
+				}
 			case *ssa.Send, *ssa.Select:
 				// no heap effect in the model
 			}
